@@ -475,10 +475,30 @@ pub enum Numeric {
   FLOAT(f64),
 }
 
+/// Escape a text value so that it can be written between double quotes and
+/// parsed back to the same string
+pub(crate) fn escape_text(text: &str) -> String {
+  let mut escaped = String::with_capacity(text.len());
+  for c in text.chars() {
+    match c {
+      '"' => escaped.push_str("\\\""),
+      '\\' => escaped.push_str("\\\\"),
+      '\n' => escaped.push_str("\\n"),
+      '\r' => escaped.push_str("\\r"),
+      '\t' => escaped.push_str("\\t"),
+      '\u{0008}' => escaped.push_str("\\b"),
+      '\u{000C}' => escaped.push_str("\\f"),
+      c if c.is_control() => escaped.push_str(&format!("\\u{{{:x}}}", c as u32)),
+      c => escaped.push(c),
+    }
+  }
+  escaped
+}
+
 impl fmt::Display for Value<'_> {
   fn fmt(&self, f: &mut fmt::Formatter) -> fmt::Result {
     match self {
-      Value::TEXT(text) => write!(f, "\"{}\"", text),
+      Value::TEXT(text) => write!(f, "\"{}\"", escape_text(text)),
       Value::INT(i) => write!(f, "{}", i),
       Value::UINT(ui) => write!(f, "{}", ui),
       Value::FLOAT(float) => write!(f, "{:?}", float),
